@@ -19,7 +19,7 @@ import time
 
 _real = dict(open=builtins.open, ioopen=io.open, stat=os.stat, scandir=os.scandir, listdir=os.listdir,
              rename=os.rename, replace=os.replace, remove=os.remove, unlink=os.unlink, osopen=os.open,
-             sleep=time.sleep, getpid=os.getpid)
+             sleep=time.sleep, getpid=os.getpid, rmdir=os.rmdir, mkdir=os.mkdir)
 
 _RES = re.compile(r"^xyz-result-(\d+)\.jbdmp$")
 GLOB = "xyz-result-*.jbdmp"
@@ -58,6 +58,10 @@ class Sched(object):
         self.by_thread = {}
         self.names = {}           # temp basename -> stable id
         self.on_list = None       # callback(actor) evaluated when a 'list' is granted
+        self.classifier = None    # optional path -> class function (default: results/ naming)
+        self.kill_at = None       # C10: SIGKILL this process when the k-th operation is about to happen
+        self.count = 0
+        self.count_dirfd = False  # C10: operations relative to a directory descriptor are points too
         self.log = []             # global order of performed operations: (actor, label)
 
     # -- registration -------------------------------------------------------
@@ -78,7 +82,7 @@ class Sched(object):
         return p == self.shared or p.startswith(self.shared + os.sep)
 
     def label_path(self, path):
-        c = classify(path)
+        c = (self.classifier or classify)(path)
         if c.startswith("tmp"):
             kind, b = c.split(":", 1)
             if b not in self.names:
@@ -93,6 +97,10 @@ class Sched(object):
     def point(self, a, label):
         """Called by an actor before a shared operation; returns when granted."""
         if a.free:
+            self.count += 1
+            if self.kill_at is not None and self.count == self.kill_at:
+                import signal
+                os.kill(_real["getpid"](), signal.SIGKILL)
             a.trace.append(label)
             return
         with self.cv:
@@ -298,7 +306,7 @@ def _stat(path, *args, **kw):
     s = _active[0]
     a = s.current() if s is not None else None
     if a is not None and not kw.get("dir_fd") and s._is_shared(path):
-        s.point(a, ("stat", s.label_path(path) if os.path.realpath(os.fspath(path)) != s.shared else "results"))
+        s.point(a, ("stat", s.label_path(path) if os.path.realpath(os.fspath(path)) != s.shared else "root"))
     return _real["stat"](path, *args, **kw)
 
 
@@ -350,12 +358,16 @@ def _mk_rename(which):
     return f
 
 
-def _mk_unlink(which):
+def _mk_unlink(which, kind="unlink"):
     def f(path, *args, **kw):
         s = _active[0]
         a = s.current() if s is not None else None
-        if a is not None and not kw and s._is_shared(path):
-            s.point(a, ("unlink", s.label_path(path)))
+        if a is not None:
+            if not kw.get("dir_fd") and s._is_shared(path):
+                s.point(a, (kind, s.label_path(path)))
+            elif kw.get("dir_fd") is not None and s.count_dirfd:
+                # shutil.rmtree deletes through directory descriptors: only the name is known
+                s.point(a, (kind, s.label_path(path)))
         return _real[which](path, *args, **kw)
     return f
 
@@ -394,6 +406,8 @@ class Installed(object):
         os.replace = _mk_rename("replace")
         os.remove = _mk_unlink("remove")
         os.unlink = _mk_unlink("unlink")
+        os.rmdir = _mk_unlink("rmdir", "rmdir")
+        os.mkdir = _mk_unlink("mkdir", "mkdir")
         time.sleep = _sleep
         os.getpid = _getpid
         return self.sched
@@ -409,7 +423,27 @@ class Installed(object):
         os.replace = _real["replace"]
         os.remove = _real["remove"]
         os.unlink = _real["unlink"]
+        os.rmdir = _real["rmdir"]
+        os.mkdir = _real["mkdir"]
         time.sleep = _real["sleep"]
         os.getpid = _real["getpid"]
         _active[0] = None
         return False
+
+
+def run_inline(sched, name, target, fakepid=4242):
+    """Run `target` in the calling thread as a free-running actor (operations are counted and
+    traced, not scheduled).  Used to record a program and, with sched.kill_at, to die at the k-th
+    operation."""
+    a = sched.add(name, target, fakepid)
+    a.free = True
+    a.state = "running"
+    sched.by_thread[threading.get_ident()] = a
+    with Installed(sched):
+        try:
+            a.result = target()
+        except BaseException as e:  # noqa
+            a.exc = e
+    a.state = "done"
+    sched.by_thread.pop(threading.get_ident(), None)
+    return a
